@@ -101,9 +101,11 @@ def r2(ctx):
     CK = ('field', ('mem', ('p', 1)), 'checkers')
     rows = {}
     n = 0
-    for c in s.calls:
-        if not (c['callee'].endswith('::legals') and (c['decl'] or '') == DEFAULT):
-            continue
+    is_legals = lambda c: bool(c['callee']) and c['callee'].endswith('::legals') and (c['decl'] or '') == DEFAULT
+    for c in expanded_calls(ctx, s, is_legals):
+        if c['callee'] is None:
+            ctx.inconclusive(R, 'legals reached through a helper in a way that is not understood (%s)' % c.get('why'))
+            return
         n += 1
         g = list(c['gargs'])
         if c['callee'] == DEFAULT:
@@ -588,7 +590,7 @@ def r4(ctx):
                             return None if not ba else as_bool(True if ne else False, vals)
                     unknown.append(c)
                     return None
-                results[(ra, ba)] = set(eval_tree(r, decide))
+                results[(ra, ba)] = set(eval_tree(r, decide, bool_leaves=True))
         if unknown:
             ctx.violation(R, key + ':shape', 'legal_ep_move tests something other than rook-/bishop-type attacks on the king through the occupancy '
                           '`combined ^ ep pawn ^ source ^ destination`: ' + sh(unknown[0], 300), w)
